@@ -1258,6 +1258,9 @@ impl World for GraphWorld {
             }
             if round.is_some() {
                 self.explain = format!("log: {log:?}");
+                if std::env::var("HX_DEBUG_MODEL").is_ok() {
+                    self.explain.push_str(&format!("\n{}\nround: {:?}", self.model.dump(), round));
+                }
             }
         }
         for mch in self.machinery.drain(..) {
